@@ -50,6 +50,13 @@ def tables(rnd):
         ("wo-first", "12:4:w:M|16:8:rw:M", 16, 12),
         ("nowritecb", "16:8:rw:M|24:4:rw:CR-", 16, 24),
         ("three", "10:4:rw:M|16:8:rw:M|26:3:rw:CRW", 16, 26),
+        # writable neighbours without a hole, with and without registers of their own (an area that holds no
+        # register records the run first = last = count = 0, which must not be mistaken for "register 0 only")
+        ("adj-rw", "16:8:rw:M|24:4:rw:M", 16, 24),
+        ("empty-after", "16:8:rw:M|24:4:rw:M", 16, None),
+        ("empty-before", "12:4:rw:M|16:8:rw:M", 16, None),
+        ("empty-mid", "10:4:rw:M|14:2:rw:CRW|16:8:rw:M", 16, 10),
+        ("empty-both", "12:4:rw:M|16:8:rw:M|24:6:rw:M", 16, None),
     ]
     for an, aline, base, other in areasets:
         for rn, rf in regsets:
@@ -79,14 +86,14 @@ def cases(tier, seed):
     cs = []
     tabs = tables(rnd)
     if tier == "quick":
-        tabs = rnd.sample(tabs, 24)
+        tabs = rnd.sample(tabs, 60)
     for name, tline, lo, hi in tabs:
         ops = [tline, "rt.init"]
         pairs = [(a, n) for a in range(lo, hi + 1) for n in range(0, 9)]
         if tier == "quick":
-            pairs = rnd.sample(pairs, 110)
+            pairs = rnd.sample(pairs, 160)
         for (a, n) in pairs:
-            for mode in (["zero", "rnd"] if tier == "quick" else ["zero", "ones", "nan", "small", "rnd", "rnd"]):
+            for mode in ([rnd.choice(["zero", "small"]), rnd.choice(["ones", "nan", "rnd"])] if tier == "quick" else ["zero", "ones", "nan", "small", "rnd", "rnd"]):
                 ops.append("rt.bwrite %d %s" % (a, words(rnd, n, mode) or "-"))
         ops.append("rt.bread %d %d" % (lo, 4))
         for i in range(0, len(ops) - 2, 300):
